@@ -459,7 +459,16 @@ func (sp *ServerPool) handle(ctx *context.Context, mirror bool) string {
 		if sp.timeout > 0 {
 			var cancel stdcontext.CancelFunc
 			stdctx, cancel = stdcontext.WithTimeout(stdctx, sp.timeout)
-			defer cancel()
+			// The body of a stream response is read after this function
+			// returns, and the context governs reading the body as well:
+			// keep it alive until the body is closed.
+			defer func() {
+				if spCtx.resp != nil && spCtx.resp.IsStream() && spCtx.respBody != nil {
+					spCtx.respBody.OnClose(func() { cancel() })
+				} else {
+					cancel()
+				}
+			}()
 		}
 
 		// this function could be called more than once, and these
